@@ -33,7 +33,7 @@ ASSUMPTIONS = [
 ]
 MIN_EVALUATIONS = {"quick": 400, "thorough": 8000}
 MIN_NONTRIVIAL = {"quick": 300, "thorough": 6000}
-REACH_FLOORS = {"examples_expected": 1000, "cases_drawn": 800, "engine_runs": 8, "operations_without_examples": 20}
+REACH_FLOORS = {"examples_expected": 1000, "cases_drawn": 800, "engine_runs": 5, "operations_without_examples": 20}
 SHARD_TIMEOUT = {"quick": 900, "thorough": 5400}
 
 PLACEMENTS = ["param_example", "param_examples", "param_schema_example", "param_schema_examples", "media_example", "media_examples", "media_examples_ref", "body_schema_example", "property_example", "branch_example", "falsy_property_example", "allof_property_example"]
